@@ -135,6 +135,7 @@ class P_pdb(StructureParser):
             scale = numpy.identity(3, dtype=float)
             scaleU = numpy.zeros(3, dtype=float)
             p_nl = 0
+            last_atom = None
             for line in lines:
                 p_nl += 1
                 # skip blank lines
@@ -202,6 +203,9 @@ class P_pdb(StructureParser):
                     last_atom = stru.getLastAtom()
                     last_atom.xyz_cartn = rc
                     last_atom.Uisoequiv = uiso
+                elif record in ("SIGATM", "ANISOU", "SIGUIJ") and last_atom is None:
+                    emsg = "%d: %s record without preceding ATOM record" % (p_nl, record)
+                    raise StructureFormatError(emsg)
                 elif record == "SIGATM":
                     sigrc = [float(x) for x in line[30:54].split()]
                     sigxyz = numpy.dot(scale, sigrc)
